@@ -4,8 +4,22 @@ From Verif.Gen Require Tables.
 From Verif.Eco Require Import VLayer.
 Local Open Scope Z_scope.
 
-(* Version struct.  A dev version (isDev) has only its branch name; all its numeric fields
-   keep Go's zero value (stability = stabilityDev = 0).  [build] is never read: left out. *)
+(* the named stability levels: generated from the Go source on every run (tools/gen ->
+   Gen/Tables.v); the model never writes their numbers *)
+Definition stabilityDev : Z :=
+  Eval cbv delta [Verif.Gen.Tables.composer_stabilityDev] in Verif.Gen.Tables.composer_stabilityDev.
+Definition stabilityAlpha : Z :=
+  Eval cbv delta [Verif.Gen.Tables.composer_stabilityAlpha] in Verif.Gen.Tables.composer_stabilityAlpha.
+Definition stabilityBeta : Z :=
+  Eval cbv delta [Verif.Gen.Tables.composer_stabilityBeta] in Verif.Gen.Tables.composer_stabilityBeta.
+Definition stabilityRC : Z :=
+  Eval cbv delta [Verif.Gen.Tables.composer_stabilityRC] in Verif.Gen.Tables.composer_stabilityRC.
+Definition stabilityStable : Z :=
+  Eval cbv delta [Verif.Gen.Tables.composer_stabilityStable] in Verif.Gen.Tables.composer_stabilityStable.
+
+(* Version struct.  A dev version (isDev) has only its branch name; its numeric fields keep
+   Go's zero value, except stability which NewVersion sets to stabilityDev.  [build] is never
+   read: left out. *)
 Inductive core :=
 | CDev (branch : bytes)
 | CRel (major minor patch extra stab stabnum : Z).
@@ -15,10 +29,8 @@ Definition c_major (c : core) : Z := match c with CRel m _ _ _ _ _ => m | _ => 0
 Definition c_minor (c : core) : Z := match c with CRel _ m _ _ _ _ => m | _ => 0 end.
 Definition c_patch (c : core) : Z := match c with CRel _ _ p _ _ _ => p | _ => 0 end.
 Definition c_extra (c : core) : Z := match c with CRel _ _ _ e _ _ => e | _ => 0 end.
-Definition c_stab (c : core) : Z := match c with CRel _ _ _ _ s _ => s | _ => 0 end.
+Definition c_stab (c : core) : Z := match c with CRel _ _ _ _ s _ => s | _ => stabilityDev end.
 Definition c_stabnum (c : core) : Z := match c with CRel _ _ _ _ _ n => n | _ => 0 end.
-
-Definition stabilityStable : Z := 4.
 
 (* generated from the Go source on every run (tools/gen -> Gen/Tables.v) *)
 Definition stabilityMap : list (bytes * Z) :=
